@@ -1,10 +1,12 @@
 #!/usr/bin/env python3
 """Regenerates MANIFEST.json from props_config.py (claimed checks) and properties.jsonl (the rest)."""
 import json, sys
-sys.path.insert(0, "/verif")
+import os
+HERE = os.path.dirname(os.path.abspath(__file__))
+sys.path.insert(0, HERE)
 from props_config import PROPS
 
-ids = [json.loads(l)["id"] for l in open("/verif/properties.jsonl")]
+ids = [json.loads(l)["id"] for l in open(HERE + "/properties.jsonl")]
 BASE = "for m in $(cat /w/out/gomods.txt); do MF=$(cd /repo/$m && . /w/out/goenv.sh && gomodflag); (cd /repo/$m && go test $MF -json -vet=off -count=1 -timeout 25m ./...); done"
 man = {
     "version": 1,
@@ -13,7 +15,7 @@ man = {
         "guard": "verif",
         "enable": "go build -tags verif (add-only files verif_export.go; the harness module replaces github.com/tdewolff/parse/v2 by /repo)",
         "baseline_off_cmd": BASE,
-        "source_commits": json.load(open("/verif/hooks_commits.json")) if __import__("os").path.exists("/verif/hooks_commits.json") else [],
+        "source_commits": json.load(open(HERE + "/hooks_commits.json")) if os.path.exists(HERE + "/hooks_commits.json") else [],
         "add_only": True,
     },
     "engines": [
@@ -41,5 +43,5 @@ for pid in ids:
         })
     else:
         man["not_applicable"].append({"property_id": pid, "reason": "not claimed yet: its model and theorems are still being built (see DESIGN.md section 9); no check registered"})
-json.dump(man, open("/verif/MANIFEST.json", "w"), indent=1)
+json.dump(man, open(HERE + "/MANIFEST.json", "w"), indent=1)
 print("checks:", len(man["checks"]), "not_applicable:", len(man["not_applicable"]))
